@@ -49,6 +49,8 @@ def run(check):
     check.run_rule('C01.R8', lambda c: rule_validation_converted(c, 'C01.R8'))
     from ..rules_classes import rule_no_whole_parameter_equality
     check.run_rule('C01.R7b', lambda c: rule_no_whole_parameter_equality(c, 'C01.R7'))
+    from ..rules_classes import rule_no_self_comparison
+    check.run_rule('C01.R7c', lambda c: rule_no_self_comparison(c, 'C01.R7'))
     check.run_rule('C01.R1', r1)
     check.run_rule('C01.R3', lambda c: rm.rule_tables(
         c, model(), 'C01.R3', ('sound',), 'effect lies in the sound set of every compatible row (tables B2-B4)',
